@@ -41,6 +41,7 @@ _C07_FULL = {m: dict(o, methods=tuple(o.get("methods", ())) + ("get",), calls=tu
 _C07_FULL["xdsl.context"] = {"shims": (), "methods": ("get",)}
 
 CHECKS = {
+    "C29": {"module": "vx.checks.c29", "instrument": {"full": {"xdsl.utils.symbol_table": {"shims": (), "methods": ("get", "pop"), "calls": ("dict",), "dictdisplay": True}}}, "maxtasksperchild": 20},
     "C07": {"module": "vx.checks.c07", "instrument": {"full": _C07_FULL}, "maxtasksperchild": 40},
     "C04": {"module": "vx.checks.c04", "instrument": {"full": _IR_TEXT_FULL}, "maxtasksperchild": 10},
     "C06": {"module": "vx.checks.c06", "instrument": {"full": _PARSE_FULL}, "maxtasksperchild": 20},
